@@ -359,6 +359,8 @@ static void enumerate(void) {
 	static const int IDS[] = {CURVE_25519, TWEEDLEDUM};
 #elif FP_PRIME == 381
 	static const int IDS[] = {B12_P381};
+#elif FP_PRIME == 446
+	static const int IDS[] = {BN_P446, B12_P446};
 #else
 	static const int IDS[] = {0};
 #endif
